@@ -178,11 +178,21 @@ def dump_graph(scope):
         fs = _need(f, 'scope')
         chain, hide = [], None
         if not parents:
+            # scope entry rule, scope.py Flow._get_parent_names (no parents):
+            #   module   MergedDict(top._global_names, builtin names)
+            #   class    everything the enclosing scope sees
+            #   function the enclosing scope's names minus this scope's locals
+            # _declared_globals (a scope with `global` declarations) is not modelled: fail closed
             pscope = _need(fs, 'parent')
             if pscope:
-                chain = scope_chain(pscope)
-                if not isinstance(fs, sc.ClassScope):
-                    hide = sorted(g.nid(x) for x in _need(fs, 'locals'))
+                if fs is scope:
+                    chain = [G] + scope_chain(pscope)
+                else:
+                    if _need(fs, 'globals'):
+                        raise DumpError('scope with global declarations (_declared_globals is not modelled)')
+                    chain = scope_chain(pscope)
+                    if not isinstance(fs, sc.ClassScope):
+                        hide = sorted(g.nid(x) for x in _need(fs, 'locals'))
         g.flows.append({'own': own, 'parents': parents, 'chain': chain, 'hide': hide,
                         'hint': getattr(f, 'hint', '?'),
                         'scope_kind': type(fs).__name__})
